@@ -302,21 +302,42 @@ def macro_def(text, name, path):
         raise ExtractError("macro %s not found in %s" % (name, path))
     body_end = match_close(text, m.end() - 1)
     inner = text[m.end():body_end]
-    i = inner.index("(")
-    j = match_close(inner, i, "(", ")")
-    pattern = inner[i + 1:j]
-    k = inner.index("{", j)
-    l = match_close(inner, k)
-    return pattern, inner[k + 1:l]
+    masked = mask_trivia(inner)
+    arms = []
+    pos = 0
+    while True:
+        i = masked.find("(", pos)
+        if i < 0:
+            break
+        j = match_close(inner, i, "(", ")")
+        k = masked.find("{", j)
+        if k < 0:
+            break
+        l = match_close(inner, k)
+        arms.append((inner[i + 1:j], inner[k + 1:l]))
+        pos = l + 1
+    if not arms:
+        raise ExtractError("macro %s: no arm found in %s" % (name, path))
+    return arms
 
 
-def instantiate_macro(text, name, inv_args, path):
-    pattern, body = macro_def(text, name, path)
-    toks = _tokenize_pattern(pattern)
-    bind = {}
-    pos = _match_tokens(toks, inv_args, 0, bind)
-    if pos is None or inv_args[pos:].strip() not in ("", ","):
-        raise ExtractError("macro %s: invocation `%s` does not match pattern `%s`" % (name, inv_args, pattern.strip()))
+def instantiate_macro(text, name, inv_args, path, depth=0):
+    # the first arm whose pattern matches the invocation (macro_rules! semantics)
+    chosen = None
+    arms = macro_def(text, name, path)
+    for (pattern, body) in arms:
+        try:
+            toks = _tokenize_pattern(pattern)
+        except ExtractError:
+            continue
+        bind = {}
+        pos = _match_tokens(toks, inv_args, 0, bind)
+        if pos is not None and inv_args[pos:].strip() in ("", ","):
+            chosen = (pattern, body, toks, bind)
+            break
+    if chosen is None:
+        raise ExtractError("macro %s: invocation `%s` does not match pattern `%s`" % (name, inv_args, arms[0][0].strip()))
+    pattern, body, toks, bind = chosen
     for nm in _frag_names(toks):
         bind.setdefault(nm, None)
 
@@ -351,6 +372,18 @@ def instantiate_macro(text, name, inv_args, path):
     left = re.findall(r"\$\w+", re.sub(r'"[^"]*"', "", body))
     if left:
         raise ExtractError("macro %s: unexpanded %s" % (name, left[:3]))
+    # an arm that delegates to another arm of the same macro
+    for _ in range(3):
+        rm_ = re.search(r"\b" + re.escape(name) + r"!\s*\(", mask_trivia(body))
+        if not rm_:
+            break
+        if depth > 3:
+            raise ExtractError("macro %s: recursion depth" % name)
+        re_ = match_close(body, rm_.end() - 1, "(", ")")
+        tail_ = body[re_ + 1:]
+        if tail_.lstrip().startswith(";"):
+            tail_ = tail_.lstrip()[1:]
+        body = body[:rm_.start()] + instantiate_macro(text, name, body[rm_.end():re_], path, depth + 1) + tail_
     return body
 
 
